@@ -643,7 +643,7 @@ package larking
 //@   count ends `sh.HandleRPC(ctx, &stats.End{`
 //@   ensures [one-snapshot C12] loads == 1
 //@   ensures [end-after-begin C18] begins == ends
-//@   ghost at "herr := hd.handler(&m.opts, stream)" set gf(stream, "recvlimit") = m.opts.maxReceiveMessageSize
+//@   assert at "herr := hd.handler(&m.opts, stream)" [websocket-stream-carries-the-receive-limit C08] stream.maxRecv == m.opts.maxReceiveMessageSize
 //@   assert atcall `ws.NewCloseFrameBody(` [websocket-close-code-is-the-mapped-code C05] (StatusCodeOf(s#2) <= 16 ==> arg0 == WSOf(StatusCodeOf(s#2))) && (StatusCodeOf(s#2) > 16 ==> arg0 == 1011)
 //@   count tags `sh.TagRPC(`
 //@   count inheaders `sh.HandleRPC(ctx, &stats.InHeader{`
@@ -1200,11 +1200,13 @@ package larking
 //@ func (*streamWS).SendMsg serves C09 C16 partial pre[protoreflect inv.init inv.keep assert index nil
 //@   requires s != nil && s.method != nil && AllSingular(s.method.resp) && impl(v, "proto.Message")
 //@   loop 1 invariant -1 <= rangeindex && rangeindex < len(s.method.resp) && AllSingular(s.method.resp) && cur != nil
-// (the ghost field recvlimit of a WebSocket stream is the mux's receive limit, set
-// where serveHTTP creates the stream: no message larger than it reaches the decoder, C08)
+// (maxRecv of a WebSocket stream is the mux's receive limit: serveHTTP, the only
+// function that writes the field, is checked to set it so where it creates the
+// stream; no message larger than it reaches the decoder, C08)
+//@ immutable F$streamWS.maxRecv except (*Mux).serveHTTP
 //@ func (*streamWS).RecvMsg serves C09 C16 C08 partial pre[protoreflect inv.init inv.keep assert index nil ghost
 //@   requires s != nil && s.method != nil && AllSingular(s.method.body) && impl(m, "proto.Message")
-//@   assert atcall `protojson.Unmarshal(` [websocket-receive-limit C08] len(arg0) <= gf(s, "recvlimit")
+//@   assert atcall `protojson.Unmarshal(` [websocket-receive-limit C08] len(arg0) <= s.maxRecv
 //@   witness verifWitnessWSLimit for websocket-receive-limit
 //@   loop 1 invariant -1 <= rangeindex && rangeindex < len(s.method.body) && AllSingular(s.method.body) && cur != nil
 //@ func AsHTTPBodyWriter serves C09 C16 partial pre[protoreflect inv.init inv.keep index
